@@ -1,6 +1,6 @@
 (* C14 — layout trivia and source positions.  Property theorems only. *)
 From Coq Require Import List NArith Bool String Ascii.
-From RV Require Import Loc LocProofs Lexer LexerTrivia LexerTrivia2 LexerTrivia3 LexerTriviaNum LexerTrivia4 LexerTriviaFloat GenLexer.
+From RV Require Import Loc LocProofs Lexer LexerTrivia LexerTrivia2 LexerTrivia3 LexerTriviaNum LexerTrivia4 LexerTriviaFloat LexerNumTail LexerTrivia5 LexerTrivia6 GenLexer.
 Import ListNotations.
 Local Open Scope N_scope.
 
@@ -326,6 +326,112 @@ Example C14_plain_float_example :
 Proof. cbv zeta. split; vm_compute; reflexivity. Qed.
 Local Close Scope string_scope.
 
+Local Open Scope string_scope.
+(* ---- numeric literals of every form (decimal, hexadecimal, octal, with suffixes, exponents, #INF): a text that begins
+        with a digit is read the same in front of any two characters that end it (`stopb`: no letter, digit or underscore,
+        neither . nor #, and + or - only where the text does not end in the e of an exponent), whatever follows them - for every pair of suffix tables made of letters ---- *)
+Theorem C14_numeric_token_ignores_what_follows :
+  forall keywords reserved_words symbols int_suffixes float_suffixes float_is_zero utf8_ok c u' w1 r1 w2 r2,
+    suffixes_alpha_all int_suffixes = true -> fsuffixes_alpha float_suffixes = true ->
+    is_digit c = true -> stopb (String c u') w1 = true -> stopb (String c u') w2 = true ->
+    tok_at keywords reserved_words symbols int_suffixes float_suffixes float_is_zero utf8_ok false (String c u' ++ String w1 r1) =
+    tok_at keywords reserved_words symbols int_suffixes float_suffixes float_is_zero utf8_ok false (String c u' ++ String w2 r2).
+Proof. exact numeric_token_ignores_tail. Qed.
+
+(* ---- so such a literal may stand in a `Pre2` prefix ... ---- *)
+Theorem C14_pre2_number :
+  forall keywords reserved_words symbols int_suffixes float_suffixes float_is_zero utf8_ok nxt c a' t w0 r0 p,
+    suffixes_alpha_all int_suffixes = true -> fsuffixes_alpha float_suffixes = true ->
+    is_digit c = true -> stopb (String c a') w0 = true ->
+    tok_at keywords reserved_words symbols int_suffixes float_suffixes float_is_zero utf8_ok false (String c a' ++ String w0 r0) = LOk t (slen (String c a')) ->
+    stopb (String c a') (next_char nxt p) = true ->
+    Pre2 keywords reserved_words symbols int_suffixes float_suffixes float_is_zero utf8_ok nxt p ->
+    Pre2 keywords reserved_words symbols int_suffixes float_suffixes float_is_zero utf8_ok nxt (String c a' ++ p).
+Proof. exact pre2_number. Qed.
+
+(* ---- ... and trivia between it and the character that ends it, behind such a prefix, leaves the tokens that are not
+        whitespace unchanged.  What remains outside the lexer theorems: `<` / `>` in front of the insertion point and a
+        literal directly followed by `.` or `#` (`1.x`, the recorded swizzle finding, is of that kind) ---- *)
+Theorem C14_trivia_behind_a_number_partial :
+  forall keywords reserved_words symbols int_suffixes float_suffixes float_is_zero utf8_ok p c a' t w0 r0 x spans,
+    suffixes_alpha_all int_suffixes = true -> fsuffixes_alpha float_suffixes = true ->
+    Pre2 keywords reserved_words symbols int_suffixes float_suffixes float_is_zero utf8_ok c p -> is_digit c = true -> stopb (String c a') w0 = true ->
+    tok_at keywords reserved_words symbols int_suffixes float_suffixes float_is_zero utf8_ok false (String c a' ++ String w0 r0) = LOk t (slen (String c a')) ->
+    Trivia x ->
+    lex_file keywords reserved_words symbols int_suffixes float_suffixes float_is_zero utf8_ok (p ++ String c a' ++ String w0 r0) = SOk spans ->
+    exists spans', lex_file keywords reserved_words symbols int_suffixes float_suffixes float_is_zero utf8_ok (p ++ String c a' ++ x ++ String w0 r0) = SOk spans' /\
+                   strip (toks spans') = strip (toks spans).
+Proof. exact trivia_after_number_behind_prefix2. Qed.
+
+(* non-vacuity with the real tables: `x=1+0x1Fu*2.5e-3f;` - the prefix `x=1+0x1Fu*` with a decimal literal in front of a `+`
+   and a suffixed hexadecimal literal in it, the literal `2.5e-3f` in front of the `;`, a line comment between them *)
+Example C14_all_suffix_tables_ok : suffixes_alpha_all int_suffixes = true /\ fsuffixes_alpha float_suffixes = true.
+Proof. split; vm_compute; reflexivity. Qed.
+Example C14_number_example :
+  let pre2 := Pre2 keywords reserved_words symbols int_suffixes float_suffixes (fun _ => false) (fun _ => true) "2"%char in
+  let tok := tok_at keywords reserved_words symbols int_suffixes float_suffixes (fun _ => false) (fun _ => true) false in
+  let lex := lex_file keywords reserved_words symbols int_suffixes float_suffixes (fun _ => false) (fun _ => true) in
+  let nonws s := option_map strip (match lex s with SOk l => Some (toks l) | _ => None end) in
+  pre2 ("x" ++ "=" ++ "1" ++ "+" ++ "0x1Fu" ++ "*" ++ "") /\
+  tok ("2.5e-3f" ++ ";") = LOk (TFloat FFloat "2.5e-3") 7 /\
+  nonws "x=1+0x1Fu*2.5e-3f;" = nonws ("x=1+0x1Fu*2.5e-3f" ++ ("//" ++ " c" ++ String "010" "") ++ ";").
+Proof.
+  cbv zeta. split; [|split; vm_compute; reflexivity].
+  apply (pre2_solid _ _ _ _ _ _ _ _ "x"%char "" (TId "x")); [vm_compute; reflexivity|reflexivity|split; intros; [reflexivity|discriminate]|].
+  apply (pre2_solid _ _ _ _ _ _ _ _ "="%char "" (TSym "Equals")); [vm_compute; reflexivity|reflexivity|split; intros; [discriminate|repeat split; intros; try reflexivity; discriminate]|].
+  apply (pre2_number _ _ _ _ _ _ _ _ "1"%char "" (TInt "LiteralInt" 1) "+"%char "");
+    [vm_compute; reflexivity|vm_compute; reflexivity|reflexivity|reflexivity|vm_compute; reflexivity|reflexivity|].
+  apply (pre2_solid _ _ _ _ _ _ _ _ "+"%char "" (TSym "Plus")); [vm_compute; reflexivity|reflexivity|split; intros; [discriminate|repeat split; intros; try reflexivity; discriminate]|].
+  apply (pre2_number _ _ _ _ _ _ _ _ "0"%char "x1Fu" (TInt "LiteralIntUnsigned32" 31) "*"%char "");
+    [vm_compute; reflexivity|vm_compute; reflexivity|reflexivity|reflexivity|vm_compute; reflexivity|reflexivity|].
+  apply (pre2_solid _ _ _ _ _ _ _ _ "*"%char "" (TSym "Asterix")); [vm_compute; reflexivity|reflexivity|split; intros; [discriminate|repeat split; intros; try reflexivity; discriminate]|].
+  apply Pre2Nil.
+Qed.
+Local Close Scope string_scope.
+
+Local Open Scope string_scope.
+(* ---- `<` and `>` inside a prefix: the lexer records on them whether a token follows directly; behind the bracket stands
+        the rest of the prefix (a token read the same whatever follows, or a trivia piece), so the recorded flag does not
+        depend on what comes after the prefix.  A bracket directly in front of the token at the insertion point is covered when that token is a
+        word (C14_pre2_angle_before_a_word); trivia inserted directly behind a `<` / `>` is the exception the property names ---- *)
+Theorem C14_pre2_langle :
+  forall keywords reserved_words symbols int_suffixes float_suffixes float_is_zero utf8_ok nxt p,
+    Pre2 keywords reserved_words symbols int_suffixes float_suffixes float_is_zero utf8_ok nxt p -> p <> "" ->
+    Pre2 keywords reserved_words symbols int_suffixes float_suffixes float_is_zero utf8_ok nxt ("<" ++ p).
+Proof. exact pre2_langle. Qed.
+
+Theorem C14_pre2_rangle :
+  forall keywords reserved_words symbols int_suffixes float_suffixes float_is_zero utf8_ok nxt p,
+    Pre2 keywords reserved_words symbols int_suffixes float_suffixes float_is_zero utf8_ok nxt p -> p <> "" ->
+    Pre2 keywords reserved_words symbols int_suffixes float_suffixes float_is_zero utf8_ok nxt (">" ++ p).
+Proof. exact pre2_rangle. Qed.
+
+Theorem C14_pre2_angle_before_a_word :
+  forall keywords reserved_words symbols int_suffixes float_suffixes float_is_zero utf8_ok nxt,
+    is_alpha_ nxt = true ->
+    Pre2 keywords reserved_words symbols int_suffixes float_suffixes float_is_zero utf8_ok nxt "<" /\
+    Pre2 keywords reserved_words symbols int_suffixes float_suffixes float_is_zero utf8_ok nxt ">".
+Proof. intros. split; [apply pre2_langle_word | apply pre2_rangle_word]; assumption. Qed.
+
+(* non-vacuity with the real tables: `b=i<4;` and a block comment behind the `;` - the prefix `b=i<4` holds a `<` *)
+Example C14_angle_example :
+  let pre2 := Pre2 keywords reserved_words symbols int_suffixes float_suffixes (fun _ => false) (fun _ => true) ";"%char in
+  let lex := lex_file keywords reserved_words symbols int_suffixes float_suffixes (fun _ => false) (fun _ => true) in
+  let nonws s := option_map strip (match lex s with SOk l => Some (toks l) | _ => None end) in
+  pre2 ("b" ++ "=" ++ "i" ++ "<" ++ "4" ++ "") /\
+  nonws ("b=i<4;" ++ String "010" "") = nonws ("b=i<4;" ++ ("/*" ++ " c " ++ "*/") ++ String "010" "").
+Proof.
+  cbv zeta. split; [|vm_compute; reflexivity].
+  apply (pre2_solid _ _ _ _ _ _ _ _ "b"%char "" (TId "b")); [vm_compute; reflexivity|reflexivity|split; intros; [reflexivity|discriminate]|].
+  apply (pre2_solid _ _ _ _ _ _ _ _ "="%char "" (TSym "Equals")); [vm_compute; reflexivity|reflexivity|split; intros; [discriminate|repeat split; intros; try reflexivity; discriminate]|].
+  apply (pre2_solid _ _ _ _ _ _ _ _ "i"%char "" (TId "i")); [vm_compute; reflexivity|reflexivity|split; intros; [reflexivity|discriminate]|].
+  apply pre2_langle; [|discriminate].
+  apply (pre2_number _ _ _ _ _ _ _ _ "4"%char "" (TInt "LiteralInt" 4) ";"%char "");
+    [vm_compute; reflexivity|vm_compute; reflexivity|reflexivity|reflexivity|vm_compute; reflexivity|reflexivity|].
+  apply Pre2Nil.
+Qed.
+Local Close Scope string_scope.
+
 (* ---- non-vacuity ---- *)
 Example C14_example :
   let a := [105; 110; 116; 10] in           (* "int\n" *)
@@ -359,3 +465,9 @@ Print Assumptions C14_trivia_behind_a_decimal_int_partial.
 Print Assumptions C14_plain_float_token.
 Print Assumptions C14_pre2_plain_float.
 Print Assumptions C14_trivia_behind_a_plain_float_partial.
+Print Assumptions C14_numeric_token_ignores_what_follows.
+Print Assumptions C14_pre2_number.
+Print Assumptions C14_trivia_behind_a_number_partial.
+Print Assumptions C14_pre2_langle.
+Print Assumptions C14_pre2_rangle.
+Print Assumptions C14_pre2_angle_before_a_word.
